@@ -1,2 +1,523 @@
 import AslProofs.Matrix
 import AslModel.Solve
+import Mathlib.Algebra.BigOperators.Group.Finset.Basic
+import Mathlib.Algebra.BigOperators.Intervals
+/-!
+# C20 — correctness of the `solve_` model (Gaussian elimination through a row-permutation vector)
+
+Everything is over an arbitrary field.  The elimination is analysed by invariants (`Inv`, `RowInv`):
+the rows `_[0..k)` are triangular with non-zero pivots, every solution of the current system solves the
+original one (also for the homogeneous system, which is how non-singularity of the *original* matrix yields
+a non-zero pivot candidate at every step, `pivot_exists`), the permutation vector stays a permutation.
+The pivot-selection function is an arbitrary `pick` with `PickOK pick`; `pivotSearch_ok` shows that the
+transcribed search loop of the code is admissible for any `fabs`/`<` satisfying `CmpOK`.
+-/
+open AslModel AslModel.Solve AslProofs.Matrix
+
+namespace AslProofs.Solve
+variable {K : Type} [Field K]
+
+omit [Field K] in
+theorem look_tab (r c : Nat) (f : Nat → Nat → K) : look (tab r c f) f = f := by
+  funext i j
+  unfold look tab
+  by_cases hi : i < r
+  · by_cases hj : j < c
+    · simp [hi, hj]
+    · simp [hi, hj]
+  · simp [hi]
+
+theorem foldl_range'_inv {σ : Type} (step : σ → Nat → σ) (P : Nat → σ → Prop) :
+    ∀ (len s : Nat) (st : σ), P s st →
+      (∀ i st, s ≤ i → i < s + len → P i st → P (i + 1) (step st i)) →
+      P (s + len) ((List.range' s len).foldl step st) := by
+  intro len
+  induction len with
+  | zero => intro s st h _; simpa using h
+  | succ len ih =>
+    intro s st h hstep
+    rw [List.range'_succ, List.foldl_cons]
+    have := ih (s + 1) (step st s) (hstep s st (le_refl _) (by omega) h)
+      (fun i st' h1 h2 h3 => hstep i st' (by omega) (by omega) h3)
+    have e : s + (len + 1) = s + 1 + len := by omega
+    rw [e]; exact this
+
+theorem foldl_range_inv {σ : Type} (step : σ → Nat → σ) (P : Nat → σ → Prop) (n : Nat) (st : σ)
+    (h0 : P 0 st) (hstep : ∀ i st, i < n → P i st → P (i + 1) (step st i)) :
+    P n ((List.range n).foldl step st) := by
+  rw [List.range_eq_range']
+  have := foldl_range'_inv step P n 0 st h0 (fun i st _ h2 h3 => hstep i st (by omega) h3)
+  simpa using this
+
+theorem foldl_range_rev_inv {σ : Type} (step : σ → Nat → σ) (P : Nat → σ → Prop) :
+    ∀ (n : Nat) (st : σ), P n st → (∀ k st, k < n → P (k + 1) st → P k (step st k)) →
+      P 0 ((List.range n).reverse.foldl step st) := by
+  intro n
+  induction n with
+  | zero => intro st h _; simpa using h
+  | succ n ih =>
+    intro st h hstep
+    rw [List.range_succ, List.reverse_append, List.reverse_singleton, List.singleton_append, List.foldl_cons]
+    exact ih (step st n) (hstep n st (by omega) h) (fun k st' hk h' => hstep k st' (by omega) h')
+
+theorem sumTo_eq (n : Nat) (f : Nat → K) : sumTo (fld K) n f = ∑ k ∈ Finset.range n, f k := by
+  unfold sumTo
+  have := foldl_range_inv (fun s k => (fld K).add s (f k)) (fun i s => s = ∑ k ∈ Finset.range i, f k) n (fld K).zero
+    (by simp) (by intro i st _ h; simp [h, Finset.sum_range_succ])
+  exact this
+
+theorem foldl_range'_sum (s len : Nat) (g : Nat → K) :
+    (List.range' s len).foldl (fun t i => (fld K).add t (g i)) (fld K).zero = ∑ i ∈ Finset.range len, g (s + i) := by
+  have := foldl_range'_inv (fun t i => (fld K).add t (g i)) (fun i t => t = ∑ k ∈ Finset.range (i - s), g (s + k)) len s (fld K).zero
+    (by simp) (by
+      intro i st h1 _ h
+      have e : i + 1 - s = (i - s) + 1 := by omega
+      rw [e, Finset.sum_range_succ, h]
+      have : s + (i - s) = i := by omega
+      simp [this])
+  simpa using this
+
+theorem sum_split (n c : Nat) (h : c < n) (g : Nat → K) :
+    ∑ i ∈ Finset.range n, g i = ∑ i ∈ Finset.range c, g i + g c + ∑ i ∈ Finset.range (n - (c + 1)), g (c + 1 + i) := by
+  have e : n = (c + 1) + (n - (c + 1)) := by omega
+  conv_lhs => rw [e]
+  rw [Finset.sum_range_add, Finset.sum_range_succ]
+
+
+/-- `Σ_{c<n} row c · y c` -/
+def dot (n : Nat) (row y : Nat → K) : K := ∑ c ∈ Finset.range n, row c * y c
+
+/-! ## back substitution -/
+
+theorem backSub_spec (n : Nat) (U : Nat → Nat → K) (d x0 : Nat → K)
+    (htri : ∀ c, c < n → ∀ i, i < c → U c i = 0) (hpiv : ∀ c, c < n → U c c ≠ 0) :
+    (∀ c, c < n → dot n (U c) (backSub (fld K) n U d x0) = d c) ∧
+    (∀ i, n ≤ i → backSub (fld K) n U d x0 i = x0 i) := by
+  unfold backSub
+  have := foldl_range_rev_inv (backStep (fld K) n U d)
+    (fun k (s : BS K) => (∀ c, k ≤ c → c < n → dot n (U c) s.x = d c) ∧ (∀ i, n ≤ i → s.x i = x0 i)) n ⟨x0, 0⟩
+    ⟨by intro c h1 h2; omega, by intro i _; rfl⟩
+    (by
+      intro k s hk ⟨h1, h2⟩
+      constructor
+      · intro c hc hcn
+        by_cases hck : c = k
+        · subst hck
+          simp only [backStep, dot]
+          rw [foldl_range'_sum, sum_split n c hcn]
+          have z : ∑ i ∈ Finset.range c, U c i * setAt s.x c
+              ((fld K).div ((fld K).sub (d c) (∑ i ∈ Finset.range (n - (c + 1)), (fld K).mul (U c (c + 1 + i)) (s.x (c + 1 + i)))) (U c c)) i = 0 := by
+            apply Finset.sum_eq_zero
+            intro i hi
+            rw [htri c hcn i (Finset.mem_range.mp hi)]; ring
+          rw [z]
+          have e : ∀ i, setAt s.x c ((fld K).div ((fld K).sub (d c) (∑ i ∈ Finset.range (n - (c + 1)), (fld K).mul (U c (c + 1 + i)) (s.x (c + 1 + i)))) (U c c)) (c + 1 + i) = s.x (c + 1 + i) := by
+            intro i; have : c + 1 + i ≠ c := by omega
+            simp [setAt, this]
+          simp only [e]
+          simp only [setAt, if_true, fld_div, fld_sub, fld_mul]
+          have := hpiv c hcn
+          field_simp
+          ring
+        · have hc' : k + 1 ≤ c := by omega
+          have := h1 c hc' hcn
+          rw [← this]
+          simp only [backStep, dot]
+          apply Finset.sum_congr rfl
+          intro i _
+          by_cases hik : i = k
+          · subst hik
+            rw [htri c hcn i (by omega)]; ring
+          · simp [setAt, hik]
+      · intro i hi
+        simp only [backStep, setAt]
+        have : i ≠ k := by omega
+        simp [this, h2 i hi])
+  exact ⟨fun c hc => this.1 c (Nat.zero_le _) hc, this.2⟩
+
+
+/-! ## permutation vector -/
+
+/-- `p` restricted to `[0,n)` is a permutation of `[0,n)` -/
+structure PermOn (n : Nat) (p : Nat → Nat) : Prop where
+  lt : ∀ i, i < n → p i < n
+  inj : ∀ i i', i < n → i' < n → p i = p i' → i = i'
+  surj : ∀ r, r < n → ∃ i, i < n ∧ p i = r
+
+theorem permOn_id (n : Nat) : PermOn n (fun i => i) :=
+  ⟨fun _ h => h, fun _ _ _ _ h => h, fun r h => ⟨r, h, rfl⟩⟩
+
+theorem permOn_swap {n : Nat} {p : Nat → Nat} (h : PermOn n p) {i j : Nat} (hi : i < n) (hj : j < n) :
+    PermOn n (swapP p i j) := by
+  refine ⟨?_, ?_, ?_⟩
+  · intro t ht
+    simp only [swapP]
+    split_ifs
+    · exact h.lt j hj
+    · exact h.lt i hi
+    · exact h.lt t ht
+  · intro t t' ht ht' e
+    simp only [swapP] at e
+    split_ifs at e with h1 h2 h3 h4 h5 h6 <;>
+      first
+        | omega
+        | (have := h.inj _ _ (by assumption) (by assumption) e; omega)
+  · intro r hr
+    obtain ⟨t, ht, e⟩ := h.surj r hr
+    by_cases h1 : t = i
+    · refine ⟨j, hj, ?_⟩
+      simp only [swapP]
+      split_ifs with h2
+      · subst h1; subst h2; exact e
+      · subst h1; exact e
+    · by_cases h2 : t = j
+      · refine ⟨i, hi, ?_⟩
+        simp only [swapP, if_true]
+        subst h2; exact e
+      · exact ⟨t, ht, by simp [swapP, h1, h2, e]⟩
+
+/-! ## elimination invariant -/
+
+/-- non-singular: the homogeneous system has only the trivial solution -/
+def NS (n : Nat) (A0 : Nat → Nat → K) : Prop :=
+  ∀ y : Nat → K, (∀ r, r < n → dot n (A0 r) y = 0) → ∀ c, c < n → y c = 0
+
+/-- a pivot-selection function is admissible if it returns a non-zero candidate of `[k,n)` whenever one exists -/
+def PickOK (pick : (Nat → K) → Nat → Nat → Nat) : Prop :=
+  ∀ (col : Nat → K) (k n : Nat), (∃ i, k ≤ i ∧ i < n ∧ col i ≠ 0) →
+    k ≤ pick col k n ∧ pick col k n < n ∧ col (pick col k n) ≠ 0
+
+/-- invariant of the forward elimination after `k` columns, relative to the system `(A0, b0 column j)` it started from -/
+structure Inv (n j : Nat) (A0 b0 : Nat → Nat → K) (k : Nat) (s : St K) : Prop where
+  perm : PermOn n s.p
+  sol : ∀ (y : Nat → K) (β : K), (∀ r, r < n → dot n (s.A r) y = β * s.b r j) →
+    ∀ r, r < n → dot n (A0 r) y = β * b0 r j
+  tri : ∀ i, i < n → ∀ c, c < k → c < i → s.A (s.p i) c = 0
+  piv : ∀ c, c < k → s.A (s.p c) c ≠ 0
+  bcol : ∀ r c, c ≠ j → s.b r c = b0 r c
+
+theorem pivot_exists {n j : Nat} {A0 b0 : Nat → Nat → K} {k : Nat} {s : St K}
+    (inv : Inv n j A0 b0 k s) (hk : k < n) (hNS : NS n A0) :
+    ∃ i, k ≤ i ∧ i < n ∧ s.A (s.p i) k ≠ 0 := by
+  by_contra hcon
+  push Not at hcon
+  let U : Nat → Nat → K := fun c i => s.A (s.p c) i
+  obtain ⟨hy1, _⟩ := backSub_spec k U (fun c => -(U c k)) (fun _ => 0)
+    (fun c hc i hi => inv.tri c (by omega) i (by omega) hi) (fun c hc => inv.piv c hc)
+  let y' := backSub (fld K) k U (fun c => -(U c k)) (fun _ => 0)
+  let y : Nat → K := fun i => if i < k then y' i else if i = k then 1 else 0
+  have hrows : ∀ t, t < n → dot n (s.A (s.p t)) y = 0 := by
+    intro t ht
+    by_cases htk : t < k
+    · unfold dot
+      rw [sum_split n k hk]
+      have e1 : ∑ i ∈ Finset.range k, s.A (s.p t) i * y i = -(U t k) := by
+        rw [← hy1 t htk]
+        unfold dot
+        apply Finset.sum_congr rfl
+        intro i hi
+        have : i < k := Finset.mem_range.mp hi
+        simp [y, this, U, y']
+      have e2 : ∑ i ∈ Finset.range (n - (k + 1)), s.A (s.p t) (k + 1 + i) * y (k + 1 + i) = 0 := by
+        apply Finset.sum_eq_zero
+        intro i _
+        have h1 : ¬ (k + 1 + i < k) := by omega
+        have h2 : ¬ (k + 1 + i = k) := by omega
+        simp [y, h1, h2]
+      rw [e1, e2]
+      simp [y, U]
+    · unfold dot
+      apply Finset.sum_eq_zero
+      intro i _
+      by_cases h1 : i < k
+      · rw [inv.tri t ht i h1 (by omega)]; ring
+      · by_cases h2 : i = k
+        · subst h2; rw [hcon t (by omega) ht]; ring
+        · simp [y, h1, h2]
+  have hall : ∀ r, r < n → dot n (s.A r) y = 0 * s.b r j := by
+    intro r hr
+    obtain ⟨t, ht, e⟩ := inv.perm.surj r hr
+    rw [← e, hrows t ht]; ring
+  have h0 := inv.sol y 0 hall
+  have := hNS y (fun r hr => by rw [h0 r hr]; ring) k hk
+  simp [y] at this
+
+
+/-- invariant of the inner loop `for (i = k+1; i < n; i++)` relative to the state `s1` at its start -/
+structure RowInv (n j k : Nat) (s1 : St K) (i : Nat) (st : St K) : Prop where
+  p_eq : st.p = s1.p
+  keepA : ∀ t, t < n → (t ≤ k ∨ i ≤ t) → ∀ c, st.A (s1.p t) c = s1.A (s1.p t) c
+  keepb : ∀ t, t < n → (t ≤ k ∨ i ≤ t) → st.b (s1.p t) j = s1.b (s1.p t) j
+  doneA : ∀ t, k < t → t < i → t < n → ∀ c, c < n →
+    st.A (s1.p t) c = s1.A (s1.p t) c + s1.A (s1.p k) c * (-(s1.A (s1.p t) k) / s1.A (s1.p k) k)
+  doneb : ∀ t, k < t → t < i → t < n →
+    st.b (s1.p t) j = s1.b (s1.p t) j + s1.b (s1.p k) j * (-(s1.A (s1.p t) k) / s1.A (s1.p k) k)
+  bcol : ∀ r c, c ≠ j → st.b r c = s1.b r c
+
+theorem elimRow_inv {n j k : Nat} {s1 : St K} (hp : PermOn n s1.p) (hk : k < n)
+    (htri : ∀ c, c < k → s1.A (s1.p k) c = 0)
+    {i : Nat} {st : St K} (hi1 : k + 1 ≤ i) (hi2 : i < n) (h : RowInv n j k s1 i st) :
+    RowInv n j k s1 (i + 1) (elimRow (fld K) n j k st i) := by
+  have hii : st.p i = s1.p i := by rw [h.p_eq]
+  have hkk : st.p k = s1.p k := by rw [h.p_eq]
+  have hAi : ∀ c, st.A (s1.p i) c = s1.A (s1.p i) c := h.keepA i hi2 (Or.inr (le_refl _))
+  have hAk : ∀ c, st.A (s1.p k) c = s1.A (s1.p k) c := h.keepA k hk (Or.inl (le_refl _))
+  have hbi : st.b (s1.p i) j = s1.b (s1.p i) j := h.keepb i hi2 (Or.inr (le_refl _))
+  have hbk : st.b (s1.p k) j = s1.b (s1.p k) j := h.keepb k hk (Or.inl (le_refl _))
+  have hne : ∀ t, t < n → t ≠ i → s1.p t ≠ s1.p i := fun t ht hti e => hti (hp.inj t i ht hi2 e)
+  have eA : (elimRow (fld K) n j k st i).A = rowOp (fld K) n k st.A (s1.p i) (s1.p k)
+      (-(s1.A (s1.p i) k) / s1.A (s1.p k) k) := by
+    simp only [elimRow, look_tab, hii, hkk, hAi, hAk, fld_div, fld_neg]
+  have eb : (elimRow (fld K) n j k st i).b = upd st.b (s1.p i) j
+      (s1.b (s1.p i) j + s1.b (s1.p k) j * (-(s1.A (s1.p i) k) / s1.A (s1.p k) k)) := by
+    simp only [elimRow, hii, hkk, hAi, hAk, hbi, hbk, fld_div, fld_neg, fld_add, fld_mul]
+  refine ⟨?_, ?_, ?_, ?_, ?_, ?_⟩
+  · simp only [elimRow]; exact h.p_eq
+  · intro t ht hcase c
+    have hti : t ≠ i := by omega
+    rw [eA]
+    simp only [rowOp, hne t ht hti, false_and, if_false]
+    exact h.keepA t ht (by omega) c
+  · intro t ht hcase
+    have hti : t ≠ i := by omega
+    rw [eb]
+    simp only [upd, hne t ht hti, false_and, if_false]
+    exact h.keepb t ht (by omega)
+  · intro t hkt hti ht c hc
+    by_cases e : t = i
+    · subst e
+      rw [eA]
+      simp only [rowOp, true_and, hc, and_true, fld_add, fld_mul]
+      by_cases hkc : k ≤ c
+      · simp only [hkc, if_true, hAi, hAk]
+      · simp only [hkc, if_false, hAi]
+        rw [htri c (by omega)]; ring
+    · rw [eA]
+      simp only [rowOp, hne t ht e, false_and, if_false]
+      exact h.doneA t hkt (by omega) ht c hc
+  · intro t hkt hti ht
+    by_cases e : t = i
+    · subst e
+      rw [eb]
+      simp [upd]
+    · rw [eb]
+      simp only [upd, hne t ht e, false_and, if_false]
+      exact h.doneb t hkt (by omega) ht
+  · intro r c hc
+    rw [eb]
+    simp only [upd, hc, and_false, if_false]
+    exact h.bcol r c hc
+
+
+theorem dot_add_smul (n : Nat) (a b y : Nat → K) (f : K) (r : Nat → K) (h : ∀ c, c < n → r c = a c + b c * f) :
+    dot n r y = dot n a y + f * dot n b y := by
+  unfold dot
+  rw [Finset.mul_sum, ← Finset.sum_add_distrib]
+  apply Finset.sum_congr rfl
+  intro c hc
+  rw [h c (Finset.mem_range.mp hc)]; ring
+
+theorem dot_congr (n : Nat) (a b y : Nat → K) (h : ∀ c, c < n → a c = b c) : dot n a y = dot n b y := by
+  unfold dot
+  apply Finset.sum_congr rfl
+  intro c hc
+  rw [h c (Finset.mem_range.mp hc)]
+
+theorem elimStep_inv {n j : Nat} {A0 b0 : Nat → Nat → K} {k : Nat} {s : St K} {pick : (Nat → K) → Nat → Nat → Nat}
+    (inv : Inv n j A0 b0 k s) (hk : k < n) (hNS : NS n A0) (hpick : PickOK pick) :
+    Inv n j A0 b0 (k + 1) (elimStep (fld K) pick n j s k) := by
+  obtain ⟨hip1, hip2, hip3⟩ := hpick (fun i => s.A (s.p i) k) k n (pivot_exists inv hk hNS)
+  -- the state after the swap
+  let ip := pick (fun i => s.A (s.p i) k) k n
+  let s1 : St K := { s with p := swapP s.p k ip }
+  have hp1 : PermOn n s1.p := permOn_swap inv.perm hk hip2
+  have hs1k : s1.p k = s.p ip := by simp [s1, swapP]
+  have hpos : ∀ t, t < n → ∃ t', t' < n ∧ s1.p t = s.p t' ∧ (t < k → t' = t) ∧ (k ≤ t → k ≤ t') := by
+    intro t ht
+    by_cases h1 : t = k
+    · exact ⟨ip, hip2, by simp [s1, swapP, h1], by omega, by intro _; exact hip1⟩
+    · by_cases h2 : t = ip
+      · have h3 : ip ≠ k := h2 ▸ h1
+        exact ⟨k, hk, by simp [s1, swapP, h2, h3], by omega, by omega⟩
+      · exact ⟨t, ht, by simp [s1, swapP, h1, h2], by omega, by omega⟩
+  have tri1 : ∀ t, t < n → ∀ c, c < k → c < t → s1.A (s1.p t) c = 0 := by
+    intro t ht c hc hct
+    obtain ⟨t', ht', e, h1, h2⟩ := hpos t ht
+    rw [e]
+    by_cases htk : t < k
+    · rw [h1 htk]; exact inv.tri t ht c hc hct
+    · exact inv.tri t' ht' c hc (by have := h2 (by omega); omega)
+  have piv1 : s1.A (s1.p k) k ≠ 0 := by rw [hs1k]; exact hip3
+  have pivlt : ∀ c, c < k → s1.A (s1.p c) c ≠ 0 := by
+    intro c hc
+    obtain ⟨t', _, e, h1, _⟩ := hpos c (by omega)
+    rw [e, h1 hc]; exact inv.piv c hc
+  -- the inner loop
+  have hloop := foldl_range'_inv (elimRow (fld K) n j k) (fun i st => RowInv n j k s1 i st) (n - (k + 1)) (k + 1) s1
+    ⟨rfl, fun _ _ _ _ => rfl, fun _ _ _ => rfl, fun t h1 h2 _ _ _ => by omega, fun t h1 h2 _ => by omega, fun _ _ _ => rfl⟩
+    (fun i st h1 h2 h3 => elimRow_inv hp1 hk (fun c hc => tri1 k hk c hc hc) h1 (by omega) h3)
+  have hn : k + 1 + (n - (k + 1)) = n := by omega
+  rw [hn] at hloop
+  have hres : elimStep (fld K) pick n j s k = (List.range' (k + 1) (n - (k + 1))).foldl (elimRow (fld K) n j k) s1 := rfl
+  rw [hres]
+  generalize (List.range' (k + 1) (n - (k + 1))).foldl (elimRow (fld K) n j k) s1 = st at hloop ⊢
+  refine ⟨?_, ?_, ?_, ?_, ?_⟩
+  · rw [hloop.p_eq]; exact hp1
+  · intro y β hy r hr
+    apply inv.sol y β _ r hr
+    -- rows of s (= rows of s1) satisfy the equations
+    have hkrow : dot n (s1.A (s1.p k)) y = β * s1.b (s1.p k) j := by
+      have := hy (s1.p k) (hp1.lt k hk)
+      rw [dot_congr n _ _ y (fun c _ => hloop.keepA k hk (Or.inl (le_refl _)) c), hloop.keepb k hk (Or.inl (le_refl _))] at this
+      exact this
+    intro r' hr'
+    obtain ⟨t, ht, e⟩ := hp1.surj r' hr'
+    show dot n (s1.A r') y = β * s1.b r' j
+    rw [← e]
+    by_cases htk : t ≤ k
+    · have := hy (s1.p t) (hp1.lt t ht)
+      rw [dot_congr n _ _ y (fun c _ => hloop.keepA t ht (Or.inl htk) c), hloop.keepb t ht (Or.inl htk)] at this
+      exact this
+    · have h1 := hy (s1.p t) (hp1.lt t ht)
+      rw [dot_add_smul n (s1.A (s1.p t)) (s1.A (s1.p k)) y _ _ (fun c hc => hloop.doneA t (by omega) ht ht c hc),
+        hloop.doneb t (by omega) ht ht, hkrow] at h1
+      linear_combination h1
+  · intro t ht c hc hct
+    rw [hloop.p_eq]
+    by_cases htk : t ≤ k
+    · rw [hloop.keepA t ht (Or.inl htk) c]
+      exact tri1 t ht c (by omega) hct
+    · rw [hloop.doneA t (by omega) ht ht c (by omega)]
+      by_cases hck : c = k
+      · subst hck
+        field_simp
+        ring
+      · rw [tri1 t ht c (by omega) hct, tri1 k hk c (by omega) (by omega)]; ring
+  · intro c hc
+    rw [hloop.p_eq, hloop.keepA c (by omega) (Or.inl (by omega)) c]
+    by_cases hck : c = k
+    · subst hck; exact piv1
+    · exact pivlt c (by omega)
+  · intro r c hc
+    rw [hloop.bcol r c hc]
+    exact inv.bcol r c hc
+
+
+theorem eliminate_inv {n j : Nat} {A0 b0 : Nat → Nat → K} {pick : (Nat → K) → Nat → Nat → Nat}
+    (hNS : NS n A0) (hpick : PickOK pick) :
+    Inv n j A0 b0 (n - 1) (eliminate (fld K) pick n j ⟨A0, b0, fun i => i⟩) := by
+  unfold eliminate
+  apply foldl_range_inv (elimStep (fld K) pick n j) (fun k st => Inv n j A0 b0 k st) (n - 1)
+  · exact ⟨permOn_id n, fun y β h => h, fun _ _ c hc _ => by omega, fun c hc => by omega, fun _ _ _ => rfl⟩
+  · intro k st hk h
+    exact elimStep_inv h (by omega) hNS hpick
+
+/-- one right-hand-side column: the computed column solves the original system -/
+theorem solveCol_spec {n m : Nat} {A0 : Nat → Nat → K} {pick : (Nat → K) → Nat → Nat → Nat}
+    (hNS : NS n A0) (hpick : PickOK pick) (b x : Nat → Nat → K) (j : Nat) :
+    (∀ r, r < n → dot n (A0 r) (fun i => (solveCol (fld K) pick n m A0 (b, x) j).2 i j) = b r j) ∧
+    (∀ i c, c ≠ j → (solveCol (fld K) pick n m A0 (b, x) j).2 i c = x i c) ∧
+    (∀ r c, c ≠ j → (solveCol (fld K) pick n m A0 (b, x) j).1 r c = b r c) := by
+  have inv := eliminate_inv (j := j) (b0 := b) hNS hpick
+  simp only [solveCol, look_tab]
+  generalize eliminate (fld K) pick n j ⟨A0, b, fun i => i⟩ = s at inv
+  refine ⟨?_, ?_, ?_⟩
+  · intro r hr
+    simp only [if_true]
+    -- all pivots are non-zero, including the last one (no search for the last column)
+    have hpiv : ∀ c, c < n → s.A (s.p c) c ≠ 0 := by
+      intro c hc
+      by_cases h : c < n - 1
+      · exact inv.piv c h
+      · have hc' : c = n - 1 := by omega
+        obtain ⟨i, hi1, hi2, hi3⟩ := pivot_exists inv (by omega : n - 1 < n) hNS
+        have : i = n - 1 := by omega
+        subst hc'; rw [this] at hi3; exact hi3
+    have htri : ∀ c, c < n → ∀ i, i < c → s.A (s.p c) i = 0 := by
+      intro c hc i hi
+      exact inv.tri c hc i (by omega) hi
+    obtain ⟨hx, _⟩ := backSub_spec n (fun k i => s.A (s.p k) i) (fun k => s.b (s.p k) j) (fun i => x i j) htri hpiv
+    have hall : ∀ r', r' < n → dot n (s.A r') (backSub (fld K) n (fun k i => s.A (s.p k) i) (fun k => s.b (s.p k) j) (fun i => x i j)) = 1 * s.b r' j := by
+      intro r' hr'
+      obtain ⟨t, ht, e⟩ := inv.perm.surj r' hr'
+      rw [← e, one_mul]
+      exact hx t ht
+    have := inv.sol _ 1 hall r hr
+    rw [one_mul] at this
+    exact this
+  · intro i c hc
+    simp [hc]
+  · intro r c hc
+    exact inv.bcol r c hc
+
+/-- all columns: `A·X = b` entry-wise for the square case of `solve_` -/
+theorem solveSq_spec {n m : Nat} {A0 b0 : Nat → Nat → K} {pick : (Nat → K) → Nat → Nat → Nat}
+    (hNS : NS n A0) (hpick : PickOK pick) :
+    ∀ j, j < m → ∀ r, r < n → dot n (A0 r) (fun i => (solveSq (fld K) pick ⟨n, n, A0⟩ ⟨n, m, b0⟩).e i j) = b0 r j := by
+  simp only [solveSq]
+  have := foldl_range_inv (solveCol (fld K) pick n m A0)
+    (fun j (bx : (Nat → Nat → K) × (Nat → Nat → K)) =>
+      (∀ r c, j ≤ c → bx.1 r c = b0 r c) ∧ (∀ c, c < j → ∀ r, r < n → dot n (A0 r) (fun i => bx.2 i c) = b0 r c))
+    m (b0, fun _ _ => (fld K).zero)
+    ⟨fun _ _ _ => rfl, fun c hc => by omega⟩
+    (by
+      intro j bx hj ⟨h1, h2⟩
+      obtain ⟨s1, s2, s3⟩ := solveCol_spec (m := m) hNS hpick bx.1 bx.2 j
+      constructor
+      · intro r c hc
+        rw [s3 r c (by omega)]; exact h1 r c (by omega)
+      · intro c hc r hr
+        by_cases hcj : c = j
+        · subst hcj
+          rw [s1 r hr]; exact h1 r c (le_refl _)
+        · have : (fun i => (solveCol (fld K) pick n m A0 bx j).2 i c) = fun i => bx.2 i c := by
+            funext i; exact s2 i c hcj
+          rw [this]; exact h2 c (by omega) r hr)
+  intro j hj r hr
+  exact this.2 j hj r hr
+
+/-! ## the pivot search of the code is admissible -/
+
+/-- what the pivot search needs from `fabs` and `<`: `0 < |x|` exactly for non-zero `x`, and nothing is
+below-or-equal zero in absolute value except zero (true of the reals, of IEEE numbers other than NaN, of the prime-field order) -/
+structure CmpOK (C : Cmp K) : Prop where
+  pos : ∀ x, C.lt 0 (C.abs x) = true ↔ x ≠ 0
+  nz : ∀ y x, C.lt (C.abs y) (C.abs x) = true → x ≠ 0
+
+theorem pivotSearch_ok (C : Cmp K) (hC : CmpOK C) : PickOK (pivotSearch (fld K) C) := by
+  intro col k n ⟨i0, h1, h2, h3⟩
+  unfold pivotSearch
+  have := foldl_range'_inv
+    (fun (st : K × Nat) i => if C.lt st.1 (C.abs (col i)) then (C.abs (col i), i) else st)
+    (fun i st => (st.1 = 0 ∧ ∀ t, k ≤ t → t < i → col t = 0) ∨
+      ((∃ y, st.1 = C.abs y) ∧ k ≤ st.2 ∧ st.2 < i ∧ col st.2 ≠ 0))
+    (n - k) k ((fld K).zero, 0) (Or.inl ⟨rfl, fun t h1 h2 => by omega⟩)
+    (by
+      intro i st hi1 hi2 h
+      by_cases hlt : C.lt st.1 (C.abs (col i)) = true
+      · simp only [hlt, if_true]
+        right
+        refine ⟨⟨col i, rfl⟩, hi1, by omega, ?_⟩
+        rcases h with ⟨h0, _⟩ | ⟨⟨y, hy⟩, _⟩
+        · rw [h0] at hlt; exact (hC.pos _).mp hlt
+        · rw [hy] at hlt; exact hC.nz y _ hlt
+      · have hlt' : C.lt st.1 (C.abs (col i)) = false := by simpa using hlt
+        simp only [hlt', Bool.false_eq_true, if_false]
+        rcases h with ⟨h0, hz⟩ | ⟨hy, a, b, c⟩
+        · left
+          refine ⟨h0, ?_⟩
+          intro t ht1 ht2
+          by_cases e : t = i
+          · subst e
+            by_contra hne
+            rw [h0] at hlt
+            exact hlt ((hC.pos _).mpr hne)
+          · exact hz t ht1 (by omega)
+        · right; exact ⟨hy, a, by omega, c⟩)
+  have e : k + (n - k) = n := by omega
+  rw [e] at this
+  rcases this with ⟨_, hz⟩ | ⟨_, a, b, c⟩
+  · exact absurd (hz i0 h1 h2) h3
+  · exact ⟨a, b, c⟩
+
+end AslProofs.Solve
